@@ -3,6 +3,8 @@ package c30
 import (
 	"context"
 	"fmt"
+	"os"
+	"strings"
 	"testing"
 
 	"github.com/nspcc-dev/neofs-node/verifharness/ev"
@@ -48,6 +50,12 @@ func TestC30SharedCacheDirections(t *testing.T) {
 		ps, freshPS := newPutSvc(w, new(recStore)), newPutSvc(fresh, new(recStore))
 		ver := rapid.SampledFrom([]string{"v1", "v2"}).Draw(t, "version")
 		objectFirst := rapid.Bool().Draw(t, "objectFirst")
+		// VERIF_C30_ONLY=v2:request-first pins the combination (used by the
+		// sensitivity runs to show that each of the four is detected on its own).
+		if only := os.Getenv("VERIF_C30_ONLY"); only != "" {
+			v, d, _ := strings.Cut(only, ":")
+			ver, objectFirst = v, d == "object-first"
+		}
 		repeat := rapid.IntRange(1, 2).Draw(t, "repeatFirstStep")
 
 		var verify func() error
@@ -100,7 +108,7 @@ func TestC30SharedCacheDirections(t *testing.T) {
 			var c v2Case
 			for {
 				c = genV2Case(t)
-				if c.msg != nil && c.sigsOK {
+				if c.msg != nil && c.sigsOK && !c.ambiguous {
 					break
 				}
 			}
@@ -129,7 +137,7 @@ func TestC30SharedCacheDirections(t *testing.T) {
 			}
 		}
 		dir := map[bool]string{true: "object-first", false: "request-first"}[objectFirst]
-		rec.Case(true, desc+dir, ver+":"+dir, fmt.Sprintf("want-accept:%v", wantAccept))
+		rec.Case(true, desc+dir, "dir/"+ver+":"+dir, fmt.Sprintf("dir/want-accept:%v", wantAccept))
 		if rec.WantSample() {
 			rec.Sample(map[string]any{"token": desc, "direction": dir, "want_accept": wantAccept})
 		}
